@@ -9,9 +9,16 @@ args/result type:
   * direct oracle (no model): the bytes decoded by a schema-less reader (vh_lab) must carry exactly the declared
     field ids / wire types / values: required and default always, optional iff set, one field for a union; a
     round trip must reproduce the value; unknown fields are skipped; missing required is INVALID_DATA;
+  * compact protocol: the bytes written by generated Write are compared byte-exact with the Coq model of
+    TCompactProtocol (Judge/JThriftCompact.v over Model/ThriftCompact.v: zigzag varints, delta / long field headers,
+    bools folded into headers, container headers, little-endian doubles, the last-field-id stack), and generated
+    Read is fed bytes of an independent Python compact writer (canonical, and liberal-but-valid encodings: long-form
+    headers where the short form fits, varint-sized container headers for short containers, over-long varints,
+    STOP bytes with a non-zero high nibble, unknown fields of every type, missing required fields, multi-field
+    unions, truncation); value / error class / unread count are replayed on the model;
   * compact and JSON: the same values through generated Write are decoded schema-lessly and compared with the
     declared content; generated Read is fed bytes built by the schema-less writer and compared with the
-    binary result (differential).
+    binary result (differential). JSON has no Coq specification and stays differential.
 Known-defect probes (hand-written IDL) pin the constructs the Go generator cannot compile.
 """
 import base64
@@ -274,6 +281,78 @@ def tbin_value(wt, x):
     if wt == 13:
         kt, vt, vals = x["m"]
         return struct.pack(">bbi", kt, vt, len(vals)) + b"".join(tbin_value(kt, k) + tbin_value(vt, v) for k, v in vals)
+    raise ValueError(wt)
+
+
+# Reference TCompact writer for schema-less trees (independent of Apache Thrift and of the Coq model).
+# lib = None: the canonical encoding; lib = a PRNG: liberal but valid choices a foreign writer may make.
+CT = {2: 1, 3: 3, 6: 4, 8: 5, 10: 6, 4: 7, 11: 8, 15: 9, 14: 10, 13: 11, 12: 12, 16: 13}
+
+
+def uvarint(u, lib=None):
+    groups = []
+    while True:
+        groups.append(u & 0x7F)
+        u >>= 7
+        if not u:
+            break
+    if lib is not None and lib.random() < 0.15:
+        groups += [0] * lib.randrange(1, 4)          # over-long: continuation groups of zero bits
+    return bytes([g | 0x80 for g in groups[:-1]] + [groups[-1]])
+
+
+def zigzag(n, bits):
+    return ((n << 1) ^ (n >> (bits - 1))) & ((1 << bits) - 1)
+
+
+def tcomp(tree, lib=None):
+    out = bytearray()
+    last = 0
+    for fid, wt, x in tree["s"]:
+        ct = (1 if x else 2) if wt == 2 else CT[wt]
+        d = fid - last
+        if 0 < d <= 15 and not (lib is not None and lib.random() < 0.25):
+            out.append((d << 4) | ct)
+        else:
+            out.append(ct)
+            out += uvarint(zigzag(fid, 32), lib)
+        if wt != 2:
+            out += tcomp_value(wt, x, lib)
+        last = fid
+    out.append((lib.randrange(1, 16) << 4) if lib is not None and lib.random() < 0.2 else 0)
+    return bytes(out)
+
+
+def tcomp_value(wt, x, lib=None):
+    if wt == 2:
+        return b"\x01" if x else b"\x02"
+    if wt == 3:
+        return struct.pack(">b", x)
+    if wt in (6, 8):
+        return uvarint(zigzag(x, 32), lib)
+    if wt == 10:
+        return uvarint(zigzag(int(x), 64), lib)
+    if wt == 4:
+        return bytes.fromhex(x)[::-1]
+    if wt == 11:
+        b = bytes.fromhex(x["bin"] if isinstance(x, dict) else x)
+        return uvarint(len(b), lib) + b
+    if wt == 12:
+        return tcomp(x, lib)
+    if wt in (14, 15):
+        et, vals = x["e" if wt == 14 else "l"]
+        n = len(vals)
+        if n <= 14 and not (lib is not None and lib.random() < 0.25):
+            hdr = bytes([(n << 4) | CT[et]])
+        else:
+            hdr = bytes([0xF0 | CT[et]]) + uvarint(n, lib)
+        return hdr + b"".join(tcomp_value(et, v, lib) for v in vals)
+    if wt == 13:
+        kt, vt, vals = x["m"]
+        if not vals:
+            return b"\x00"
+        return uvarint(len(vals), lib) + bytes([(CT[kt] << 4) | CT[vt]]) + \
+            b"".join(tcomp_value(kt, k, lib) + tcomp_value(vt, v, lib) for k, v in vals)
     raise ValueError(wt)
 
 
@@ -576,7 +655,7 @@ def struct_type(fn, sdef):
     return ["ref", fn, sdef["name"]]
 
 
-def run_program(ctx, prog, lab_id, gen_opts, n_values, stats, judge_cases, judge_meta):
+def run_program(ctx, prog, lab_id, gen_opts, n_values, stats, judge_cases, judge_meta, cjudge=None):
     rng = ctx.rng
     lb = lab.Lab(prog, lab_id=lab_id, gen_opts=gen_opts)
     try:
@@ -587,7 +666,7 @@ def run_program(ctx, prog, lab_id, gen_opts, n_values, stats, judge_cases, judge
         lb.remove()
         return
     try:
-        _run_program(ctx, prog, lb, gen_opts, n_values, stats, judge_cases, judge_meta)
+        _run_program(ctx, prog, lb, gen_opts, n_values, stats, judge_cases, judge_meta, cjudge)
     finally:
         lb.remove()
 
@@ -602,7 +681,7 @@ def _method_defs(prog, fn):
     return out
 
 
-def _run_program(ctx, prog, lb, gen_opts, n_values, stats, judge_cases, judge_meta):
+def _run_program(ctx, prog, lb, gen_opts, n_values, stats, judge_cases, judge_meta, cjudge=None):
     rng = ctx.rng
     p = prog
     keys = lb.struct_keys()
@@ -675,6 +754,7 @@ def _run_program(ctx, prog, lb, gen_opts, n_values, stats, judge_cases, judge_me
     # ---- phase 2: reads: bytes from the independent writers
     rreqs, rmeta = [], []
     breq, bmeta = [], []
+    diff_index = {}
     for i, (k, fn, s, v) in enumerate(plan):
         t = struct_type_of(fn, s, p)
         try:
@@ -691,23 +771,32 @@ def _run_program(ctx, prog, lb, gen_opts, n_values, stats, judge_cases, judge_me
             b = tbin(tr)
             rreqs.append({"op": "read", "type": k, "proto": "binary", "bytes": b.hex()})
             rmeta.append((i, tr, info, b, "binary"))
+            # compact: the same content through the independent Python writer, canonical or liberal-but-valid
+            lib = rng if rng.random() < 0.5 else None
+            cb = tcomp(tr, lib)
+            rreqs.append({"op": "read", "type": k, "proto": "compact", "bytes": cb.hex()})
+            rmeta.append((i, tr, dict(info, writer="py-liberal" if lib is not None else "py-canonical"), cb, "compact"))
+            diff_index[len(rreqs) - 1] = len(rreqs) - 2
             if info["mutation"] in ("none", "unknown") and rng.random() < 0.5:
                 pr = rng.choice(["compact", "json"])
                 breq.append({"op": "build", "proto": pr, "tree": tr})
-                bmeta.append((i, tr, info, pr, len(rreqs) - 1))
+                bmeta.append((i, tr, info, pr, len(rreqs) - 2))
         if rng.random() < 0.3:
             b = tbin(tree)
             cut = b[:rng.randrange(0, len(b))]
             rreqs.append({"op": "read", "type": k, "proto": "binary", "bytes": cut.hex()})
             rmeta.append((i, tree, {"mutation": "truncate"}, cut, "binary"))
+            b = tcomp(tree)
+            cut = b[:rng.randrange(0, len(b))]
+            rreqs.append({"op": "read", "type": k, "proto": "compact", "bytes": cut.hex()})
+            rmeta.append((i, tree, {"mutation": "truncate", "writer": "py-canonical"}, cut, "compact"))
     bres = vh_lab(breq) if breq else []
-    diff_index = {}
     for (i, tr, info, pr, ridx), r in zip(bmeta, bres):
         if r.get("code") != 0:
             continue
         k = plan[i][0]
         rreqs.append({"op": "read", "type": k, "proto": pr, "bytes": r["out"]})
-        rmeta.append((i, tr, info, bytes.fromhex(r["out"]), pr))
+        rmeta.append((i, tr, dict(info, writer="apache-schemaless"), bytes.fromhex(r["out"]), pr))
         diff_index[len(rreqs) - 1] = ridx
     rres = lb.run(rreqs)
     if len(rres) != len(rreqs):
@@ -715,6 +804,7 @@ def _run_program(ctx, prog, lb, gen_opts, n_values, stats, judge_cases, judge_me
 
     # ---- direct oracle + judge cases
     per_type = {}
+    per_type_c = {}
     for i, (k, fn, s, v) in enumerate(plan):
         t = struct_type_of(fn, s, p)
         stats["values"] += 1
@@ -764,6 +854,10 @@ def _run_program(ctx, prog, lb, gen_opts, n_values, stats, judge_cases, judge_me
         r = wres[i]["binary"]
         sub = [1, struct_tok(p, s, v), r.get("code", 103), bytes.fromhex(r.get("out", "") or "")]
         per_type.setdefault(k, []).append((sub, dict(rep, op="write", observed=r)))
+        # judge case: compact Write (byte-exact against Model/ThriftCompact.v)
+        r = wres[i]["compact"]
+        sub = [1, struct_tok(p, s, v), r.get("code", 103), bytes.fromhex(r.get("out", "") or "")]
+        per_type_c.setdefault(k, []).append((sub, dict(rep, op="write", proto="compact", observed=r)))
 
     base_results = {}
     for j, ((i, tr, info, b, pr), r) in enumerate(zip(rmeta, rres)):
@@ -805,24 +899,28 @@ def _run_program(ctx, prog, lb, gen_opts, n_values, stats, judge_cases, judge_me
                 why = "Read under %s differs from Read under binary for the same content" % pr
         if why:
             ctx.violation("C02 oracle (Read, %s): %s" % (pr, why), dict(rep, idl=L.render(p)), signature=known_sig)
-        if pr == "binary":
+        if pr in ("binary", "compact"):
             if got is not None:
                 oval = struct_tok(p, s, got)
             else:
                 oval = []
             sub = [2, b, r.get("code", 103), oval, r.get("rest", 0) if r.get("code") == 0 else 0]
-            per_type.setdefault(k, []).append((sub, dict(rep, op="read")))
+            (per_type if pr == "binary" else per_type_c).setdefault(k, []).append((sub, dict(rep, op="read")))
 
-    for k in sorted(per_type):
-        fn, s = keys[k]
-        self_name = names.get((fn, s["name"])) if not s.get("role") else None
-        if self_name is None:
-            self_name = 100000 + len(judge_cases)
-        subs = per_type[k]
-        for c0 in range(0, len(subs), 40):
-            chunk = subs[c0:c0 + 40]
-            judge_cases.append([env_tok(p, names, s, fn, self_name), [11, self_name], [x[0] for x in chunk]])
-            judge_meta.append([x[1] for x in chunk])
+    targets = [(per_type, judge_cases, judge_meta)]
+    if cjudge is not None:
+        targets.append((per_type_c, cjudge[0], cjudge[1]))
+    for pt, jcases, jmeta in targets:
+        for k in sorted(pt):
+            fn, s = keys[k]
+            self_name = names.get((fn, s["name"])) if not s.get("role") else None
+            if self_name is None:
+                self_name = 100000 + len(jcases)
+            subs = pt[k]
+            for c0 in range(0, len(subs), 40):
+                chunk = subs[c0:c0 + 40]
+                jcases.append([env_tok(p, names, s, fn, self_name), [11, self_name], [x[0] for x in chunk]])
+                jmeta.append([x[1] for x in chunk])
 
 
 def struct_type_of(fn, s, p):
@@ -867,6 +965,7 @@ def run(ctx, br):
     quick = ctx.tier == "quick"
     stats = collections.Counter()
     judge_cases, judge_meta = [], []
+    cjudge_cases, cjudge_meta = [], []
     tag = "c02_%d" % (ctx.seed % 100000)
     probes = run_probes(ctx, tag)
     if quick:
@@ -880,7 +979,7 @@ def run(ctx, br):
         prog = L.gen_program(ctx.rng, pid, size)
         sizes[size + ("/" + opts if opts else "")] += 1
         before = len(ctx.violations)
-        run_program(ctx, prog, "%s_%d" % (tag, i), opts, nvals, stats, judge_cases, judge_meta)
+        run_program(ctx, prog, "%s_%d" % (tag, i), opts, nvals, stats, judge_cases, judge_meta, (cjudge_cases, cjudge_meta))
         nprog += 1
         if len(ctx.violations) - before > 30:
             break
@@ -903,8 +1002,28 @@ def run(ctx, br):
                 if v >> b & 1:
                     tagbits[1 << b] += 1
     validated = sum(len(m) for m, v in zip(judge_meta, verdicts) if v >= 0)
+    # ---- correspondence, compact protocol: every compact Write (byte-exact) and Read replayed on Model/ThriftCompact.v
+    cverdicts = vlib.run_judge(ctx.rundir, "JThriftCompact", "judge", cjudge_cases, shard=600000, name="jc") if cjudge_cases else []
+    cmism = 0
+    ctagbits = collections.Counter()
+    for case, meta, v in zip(cjudge_cases, cjudge_meta, cverdicts):
+        if v < 0:
+            cmism += 1
+            m = meta[-v - 1]
+            rep = dict(m)
+            rep["no_failing_input_found"] = True
+            rep["broken"] = "correspondence JThriftCompact.judge (Model/ThriftCompact.v gcwrite/gcread disagrees with the generated " \
+                            "code over TCompactProtocol on this input; theorems c02_compact_*)"
+            ctx.violation("C02 correspondence (compact): model and generated code disagree (%s of %s)" % (m.get("op"), m.get("type")), rep)
+        else:
+            for b in range(10):
+                if v >> b & 1:
+                    ctagbits[1 << b] += 1
+    cvalidated = sum(len(m) for m, v in zip(cjudge_meta, cverdicts) if v >= 0)
     ctx.assumptions += [
-        "TCompact / TJSON codecs are Apache Thrift's: exercised differentially through a schema-less reader/writer, only TBinary has a Coq specification",
+        "TJSON codec is Apache Thrift's: exercised differentially through a schema-less reader/writer; TBinary and TCompact have Coq "
+        "specifications (Model/ThriftBin.v, Model/ThriftCompact.v) compared byte-exact with the generated code's output",
+        "TCompact: sizes above Thrift's 100 MB default message limit, hostile container sizes and I/O errors other than end of input are not modelled",
         "set/map order is Go's iteration order: compared up to permutation; map keys on the wire are distinct; strings are valid UTF-8; "
         "doubles compared by bit pattern (all NaNs alike under TJSON); IsSet of an optional double with a default uses Go's ==",
         "a nil slice/map/binary in a required or default field is the same value as an empty one",
@@ -918,10 +1037,15 @@ def run(ctx, br):
         "programs": nprog,
         "program_sizes": dict(sizes),
         "probes": probes,
-        "traces_validated_against_impl": validated,
+        "traces_validated_against_impl": validated + cvalidated,
+        "traces_validated_binary": validated,
+        "traces_validated_compact": cvalidated,
         "judge_cases": len(judge_cases),
         "judge_mismatches": mism,
         "model_branch_hits": {str(k): v for k, v in sorted(tagbits.items())},
+        "compact_judge_cases": len(cjudge_cases),
+        "compact_judge_mismatches": cmism,
+        "compact_model_branch_hits": {str(k): v for k, v in sorted(ctagbits.items())},
         "input_histogram": dict(stats),
         "samples": [dict((k, (str(v)[:300])) for k, v in m[0].items() if k != "idl") for m in judge_meta[:3]],
     }
